@@ -57,14 +57,21 @@ def run(ctx, ck):
     why = 'sign definition not found'
     if len(sg) == 1:
         v = sg[0].value
-        ok = norm(v.body) == '-1' and norm(v.orelse) == '1' and isinstance(v.test, ast.Compare) and \
-            isinstance(v.test.ops[0], ast.Eq)
+        t = v.test
+        if isinstance(t, ast.Compare) and len(t.ops) == 1:
+            eq = isinstance(t.ops[0], ast.Eq)
+            ne = isinstance(t.ops[0], ast.NotEq)
+            a_, b_ = norm(v.body), norm(v.orelse)
+            # -1 exactly when the two joined ends have the same index
+            ok = (eq and (a_, b_) == ('-1', '1')) or (ne and (a_, b_) == ('1', '-1'))
         why = 'sign = %s' % norm(v)
     ck.ob('R-SIB.add-conn', f.qual + '|sign', ok, f.loc(), why)
     g = m.func('mininec.Geobj.compute_connections')
+    gfl = ctx.flow(g)
     sgn = [s for s in walk_no_nested(g.node) if isinstance(s, ast.Assign) and
-           isinstance(s.targets[0], ast.Name) and s.targets[0].id == 'sgn']
-    txt = sorted(norm(s.value) for s in sgn)
+           isinstance(s.targets[0], ast.Name) and isinstance(s.value, ast.List) and len(s.value.elts) == 2
+           and any('np.sign' in norm(e) for e in s.value.elts)]
+    txt = sorted(norm(gfl.inline(s.value, gfl.node_id_of(s))) for s in sgn)
     ok = txt == ['[1, np.sign(self.idx_2)]', '[np.sign(self.idx_1), 1]']
     ck.ob('R-SIB.add-conn', g.qual + '|pulse-signs', ok, g.loc(),
           'junction pulse sign vectors: %s' % txt)
